@@ -23,7 +23,17 @@
 //! just-built index with every extended metric — cosine, angular, geodesic, Jaccard, overlap, weighted
 //! Jaccard, Euclidean, Manhattan, composite — over one-hot / zero / prefix- and suffix-supported stored
 //! vectors and queries with negative tails and heads, judged with the cached-index oracle under the f64
-//! reference of the documented score formula of that metric).
+//! reference of the documented score formula of that metric), `concurrent` (stores / overwrites /
+//! deletes — every mutation API of the default collection and of a named collection — executed by a
+//! mutator thread while 2-5 other threads are searching through the index that was cached just before;
+//! all calls are bracketed by ticks of one logical clock. After the threads were joined, sequential
+//! searches are judged as in `program` (the data changed after the build: exhaustive oracle, stale-index
+//! diagnosis, signature `stale-index:<slot>:after:<api>[during-searches]`). The searches recorded in
+//! flight are judged from their brackets: one that began after a mutation had returned and overlapped
+//! no other mutation must be exact over that state (`inflight:<api>:after:<first mutation>:<what>`),
+//! one that ran before the first mutation satisfies the cached-index oracle (`…:index-fresh:…`), one that
+//! overlapped mutations may only return keys with the true score of a vector the key held between its
+//! start and its end (`…:overlapping-mutation:…`)).
 //!
 //! Failure classes carry their own signature (`stale-index:<slot>:after:<api>`,
 //! `cached:<api>:<what>`, `exact:<api>:<what>`, `readback:<api>:<what>`); three by-products of the
@@ -1976,6 +1986,665 @@ fn run_alias(case_seed: u64, r: &mut Report, verbose: bool) {
 }
 
 // ------------------------------------------------------------------------------------------------
+// part `concurrent`: stores / overwrites / deletes that execute while other threads are searching
+// through the cached index
+//
+// One case = one engine with one or two cache slots (the default collection, a named collection).
+// Each round: (quiescent) an index is built from the current vectors and cached; searcher threads
+// then call the index-consulting searches in a loop while one mutator thread per slot executes a
+// few planned mutations; every call is bracketed by two ticks of one global logical clock. After
+// all threads were joined (quiescent again) ordinary sequential searches are judged by
+// `judged_search` exactly as in part `program`: the model saw a mutation after the build, so the
+// oracle is the exhaustive one and a failure cured by `invalidate_hnsw_cache` is a stale index.
+// The searches recorded in flight are judged afterwards from the tick brackets:
+//  * a search that began after mutation a had returned and ended before mutation a+1 was called
+//    ran on unchanging data: cached-index oracle when a = 0 (nothing changed since the build), the
+//    exhaustive oracle over the state after mutation a otherwise;
+//  * a search overlapping mutations a+1..b may see, per key, the vector of any state a..b: every
+//    returned key must be stored with the query's dimension in one of those states and carry the
+//    true score of that vector; no duplicates, at most k, reported scores best first. Which keys
+//    are returned is not judged (the answer may mix states).
+// Builds never run concurrently with mutations of their slot (not demanded: the statement speaks
+// about data changing after the build).
+// ------------------------------------------------------------------------------------------------
+
+#[derive(Clone, Debug)]
+enum CMut {
+    Store { key: String, v: Vec<f32>, meta: Option<Md> },
+    BatchStore(Vec<(String, Vec<f32>)>),
+    Delete(String),
+    BatchDelete(Vec<String>),
+    /// `clear()` on the default collection, `delete_collection` on a named one
+    Clear,
+}
+
+impl CMut {
+    fn api(&self, coll: bool) -> &'static str {
+        match (self, coll) {
+            (CMut::Store { meta: None, .. }, false) => "store_embedding[during-searches]",
+            (CMut::Store { meta: Some(_), .. }, false) => "store_embedding_with_metadata[during-searches]",
+            (CMut::BatchStore(_), _) => "batch_store_embeddings[during-searches]",
+            (CMut::Delete(_), false) => "delete_embedding[during-searches]",
+            (CMut::BatchDelete(_), _) => "batch_delete_embeddings[during-searches]",
+            (CMut::Clear, false) => "clear[during-searches]",
+            (CMut::Store { meta: None, .. }, true) => "store_in_collection[during-searches]",
+            (CMut::Store { meta: Some(_), .. }, true) => "store_in_collection_with_metadata[during-searches]",
+            (CMut::Delete(_), true) => "delete_from_collection[during-searches]",
+            (CMut::Clear, true) => "delete_collection[during-searches]",
+        }
+    }
+    fn apply_model(&self, space: &mut Space, api: &'static str) {
+        match self {
+            CMut::Store { key, v, meta } => space.put(key, v.clone(), meta.clone().unwrap_or_default(), api),
+            CMut::BatchStore(items) => {
+                for (k, v) in items {
+                    space.put(k, v.clone(), Md::new(), api);
+                }
+            }
+            CMut::Delete(k) => {
+                space.del(k, api);
+            }
+            CMut::BatchDelete(ks) => {
+                for k in ks {
+                    space.del(k, api);
+                }
+            }
+            CMut::Clear => {
+                let keys: Vec<String> = space.data.keys().cloned().collect();
+                for k in keys {
+                    space.del(&k, api);
+                }
+            }
+        }
+    }
+    /// Err = the engine refused an operation that is valid in the model's state
+    fn apply_real(&self, engine: &VectorEngine, coll: Option<&str>) -> Result<(), String> {
+        let e = |r: vector_engine::Result<()>| r.map_err(|e| first_line(&e.to_string()));
+        match (self, coll) {
+            (CMut::Store { key, v, meta: None }, None) => e(engine.store_embedding(key, v.clone())),
+            (CMut::Store { key, v, meta: Some(m) }, None) => e(engine.store_embedding_with_metadata(key, v.clone(), meta_to_engine(m))),
+            (CMut::Store { key, v, meta: None }, Some(c)) => e(engine.store_in_collection(c, key, v.clone())),
+            (CMut::Store { key, v, meta: Some(m) }, Some(c)) => e(engine.store_in_collection_with_metadata(c, key, v.clone(), meta_to_engine(m))),
+            (CMut::BatchStore(items), _) => e(engine.batch_store_embeddings(items.iter().map(|(k, v)| EmbeddingInput::new(k.clone(), v.clone())).collect()).map(|_| ())),
+            (CMut::Delete(k), None) => e(engine.delete_embedding(k)),
+            (CMut::Delete(k), Some(c)) => e(engine.delete_from_collection(c, k)),
+            (CMut::BatchDelete(ks), _) => e(engine.batch_delete_embeddings(ks.clone()).map(|_| ())),
+            (CMut::Clear, None) => e(engine.clear().map(|_| ())),
+            (CMut::Clear, Some(c)) => e(engine.delete_collection(c)),
+        }
+    }
+    fn describe(&self) -> String {
+        match self {
+            CMut::Store { key, v, meta } => format!("store({:?}, dim {}{})", key, v.len(), if meta.is_some() { ", metadata" } else { "" }),
+            CMut::BatchStore(items) => format!("batch_store({:?})", items.iter().map(|(k, _)| k.as_str()).collect::<Vec<_>>()),
+            CMut::Delete(k) => format!("delete({:?})", k),
+            CMut::BatchDelete(ks) => format!("batch_delete({:?})", ks),
+            CMut::Clear => "clear".into(),
+        }
+    }
+}
+
+struct CSlot {
+    /// None = the default collection
+    coll: Option<&'static str>,
+    space: Space,
+    metric: Metric,
+    /// named collection currently has a configuration (create_collection)
+    created: bool,
+    next_key: usize,
+}
+
+impl CSlot {
+    fn slot_kind(&self) -> &'static str {
+        if self.coll.is_some() {
+            "collection"
+        } else {
+            "default"
+        }
+    }
+    fn cache_slot(&self) -> &'static str {
+        self.coll.unwrap_or("_default")
+    }
+    fn search_api(&self) -> &'static str {
+        if self.coll.is_some() {
+            "search_in_collection"
+        } else {
+            "search_similar"
+        }
+    }
+    fn store_quiescent(&mut self, engine: &VectorEngine, key: &str, v: Vec<f32>) -> bool {
+        let (res, api): (_, &'static str) = match self.coll {
+            None => (engine.store_embedding(key, v.clone()), "store_embedding"),
+            Some(c) => (engine.store_in_collection(c, key, v.clone()), "store_in_collection"),
+        };
+        if res.is_ok() {
+            self.space.put(key, v, Md::new(), api);
+        }
+        res.is_ok()
+    }
+    /// build an index over the slot's current vectors and cache it (quiescent); false = not cached
+    fn build_and_cache(&mut self, cx: &mut Ctx, rng: &mut Rng, engine: &VectorEngine) -> bool {
+        match self.coll {
+            None => {
+                let res = engine.build_and_cache_index(hnsw_cfg(rng, Metric::Cos));
+                cx.log(format!("build_and_cache_index() over {} vectors -> {:?}", self.space.data.len(), res.as_ref().err()));
+                if res.is_ok() {
+                    self.space.cache = Cache::Fresh;
+                }
+                res.is_ok()
+            }
+            Some(c) => {
+                let keys = engine.list_collection_keys(c);
+                let mut vecs = Vec::new();
+                for k in &keys {
+                    match engine.get_from_collection(c, k) {
+                        Ok(v) => vecs.push(v),
+                        Err(_) => return false,
+                    }
+                }
+                if keys.is_empty() || !vecs.iter().all(|v| v.len() == vecs[0].len()) {
+                    return false;
+                }
+                let index = HNSWIndex::with_config(hnsw_cfg(rng, self.metric));
+                for v in vecs {
+                    index.insert(v);
+                }
+                let mapping: Vec<String> = keys.iter().map(|k| format!("coll:{}:emb:{}", c, k)).collect();
+                engine.cache_hnsw_index(c, Arc::new(index), mapping);
+                self.space.cache = Cache::Fresh;
+                cx.log(format!("cache_hnsw_index({}, {} keys, metric {})", c, keys.len(), self.metric.name()));
+                true
+            }
+        }
+    }
+}
+
+/// one search recorded in flight
+struct Obs {
+    slot: usize,
+    qi: usize,
+    k: usize,
+    s0: u64,
+    s1: u64,
+    out: Result<Vec<SearchResult>, (bool, String)>, // Err((panicked, message))
+}
+
+/// a search that overlapped mutations: `vis` = the states a key's vector may legitimately come
+/// from, `earlier` = the states that were replaced before the search began (classification only)
+fn judge_overlap(res: &[SearchResult], vis: &[Space], earlier: &[Space], q: &[f32], k: usize, metric: Metric) -> Result<(), Bad> {
+    if res.len() > k {
+        return Err(Bad { what: "more-than-k".into(), detail: format!("{} results for k={}", res.len(), k) });
+    }
+    let mut seen = BTreeSet::new();
+    for r in res {
+        if !seen.insert(r.key.as_str()) {
+            return Err(Bad { what: "duplicate-key".into(), detail: format!("key {:?} returned twice in {}", r.key, fmt_res(res)) });
+        }
+        let got = r.score as f64;
+        let matches = |s: &Space| {
+            s.data.get(&r.key).filter(|e| e.v.len() == q.len()).map_or(false, |e| {
+                let (t, tol) = ref_score(metric, q, &e.v);
+                got.is_finite() && (got - t).abs() <= tol
+            })
+        };
+        if vis.iter().any(|s| matches(s)) {
+            continue;
+        }
+        let present = vis.iter().any(|s| s.data.get(&r.key).map_or(false, |e| e.v.len() == q.len()));
+        let what = if !present {
+            if earlier.iter().any(|s| s.data.contains_key(&r.key)) || vis.iter().any(|s| s.deleted.contains(&r.key)) {
+                "deleted-key-returned"
+            } else if vis.iter().any(|s| s.data.contains_key(&r.key)) {
+                "other-dimension-returned"
+            } else {
+                "unknown-key-returned"
+            }
+        } else if earlier.iter().any(|s| matches(s)) {
+            "overwritten-vector-score"
+        } else {
+            "wrong-score"
+        };
+        return Err(Bad {
+            what: what.into(),
+            detail: format!("returned key {:?} (score {}) matches no vector that key held between the start and the end of the search — {}", r.key, r.score, fmt_res(res)),
+        });
+    }
+    for w in res.windows(2) {
+        if !(w[0].score >= w[1].score) {
+            return Err(Bad { what: "unordered".into(), detail: format!("reported scores not best-first: {}", fmt_res(res)) });
+        }
+    }
+    Ok(())
+}
+
+fn plan_mutations(rng: &mut Rng, slot: &mut CSlot, dim: usize, n: usize) -> Vec<CMut> {
+    let mut sim = slot.space.clone();
+    let coll = slot.coll.is_some();
+    let mut plan = Vec::new();
+    for _ in 0..n {
+        let keys: Vec<String> = sim.data.keys().cloned().collect();
+        let kind = rng.weighted(&[
+            22, // 0 delete one
+            22, // 1 overwrite
+            14, // 2 store a new key
+            if coll { 0 } else { 12 }, // 3 batch delete
+            if coll { 0 } else { 10 }, // 4 batch store (new + overwritten keys)
+            if (!coll || (slot.created && slot.metric == Metric::Cos)) && !plan.iter().any(|m| matches!(m, CMut::Clear)) { 3 } else { 0 }, // 5 clear
+        ]);
+        let mut fresh_key = |slot: &mut CSlot| {
+            slot.next_key += 1;
+            format!("k{}", slot.next_key - 1)
+        };
+        let m = match kind {
+            0 if !keys.is_empty() => CMut::Delete(rng.pick(&keys).clone()),
+            1 if !keys.is_empty() => {
+                let key = rng.pick(&keys).clone();
+                let (v, _) = gen_vec(rng, dim, &pool_of(&sim, dim));
+                CMut::Store { key, v, meta: if rng.chance(1, 3) { Some(gen_meta(rng)) } else { None } }
+            }
+            3 if !keys.is_empty() => {
+                let n = 1 + rng.below(3);
+                let mut ks: Vec<String> = (0..n).map(|_| rng.pick(&keys).clone()).collect();
+                ks.sort();
+                ks.dedup();
+                CMut::BatchDelete(ks)
+            }
+            4 => {
+                let n = 1 + rng.below(3);
+                let mut items: Vec<(String, Vec<f32>)> = Vec::new();
+                for _ in 0..n {
+                    let key = if !keys.is_empty() && rng.bool() { rng.pick(&keys).clone() } else { fresh_key(slot) };
+                    if items.iter().any(|(k, _)| *k == key) {
+                        continue;
+                    }
+                    items.push((key, gen_vec(rng, dim, &pool_of(&sim, dim)).0));
+                }
+                CMut::BatchStore(items)
+            }
+            5 => CMut::Clear,
+            _ => {
+                let key = fresh_key(slot);
+                let (v, _) = gen_vec(rng, dim, &pool_of(&sim, dim));
+                CMut::Store { key, v, meta: if rng.chance(1, 3) { Some(gen_meta(rng)) } else { None } }
+            }
+        };
+        m.apply_model(&mut sim, "plan");
+        plan.push(m);
+    }
+    plan
+}
+
+fn run_concurrent(case_seed: u64, r: &mut Report, verbose: bool, thorough: bool) {
+    use std::sync::atomic::{AtomicBool, AtomicU64, Ordering};
+    let mut rng = Rng::new(case_seed ^ 0xC0C0);
+    let mut cx = Ctx { r, case_seed, part: "concurrent", trace: Vec::new(), verbose, step: 0 };
+    let dim = *rng.pick(&[3usize, 4, 8, 8, 16, 16, 24, 32]);
+    let n0 = if thorough { 40 + rng.below(260) } else { 40 + rng.below(160) };
+    let cfg = {
+        let mut c = VectorEngineConfig::default();
+        c.sparse_threshold = *rng.pick(&[0.5f32, 0.5, 0.0, 0.3, 1.0]);
+        c
+    };
+    let engine = match VectorEngine::with_config(cfg) {
+        Ok(e) => e,
+        Err(e) => {
+            cx.r.inconclusive(&format!("engine construction failed: {}", e));
+            return;
+        }
+    };
+    let mut slots: Vec<CSlot> = Vec::new();
+    let layout = rng.weighted(&[55, 20, 25]); // default only, collection only, both
+    if layout != 1 {
+        slots.push(CSlot { coll: None, space: Space::new("emb:"), metric: Metric::Cos, created: false, next_key: 0 });
+    }
+    if layout != 0 {
+        let metric = *rng.pick(&[Metric::Cos, Metric::Cos, Metric::Euc, Metric::Dot]);
+        let created = metric != Metric::Cos || rng.bool();
+        if created && engine.create_collection("cc", VectorCollectionConfig::default().with_metric(metric.engine())).is_err() {
+            cx.r.inconclusive("concurrent: create_collection failed");
+            return;
+        }
+        slots.push(CSlot { coll: Some("cc"), space: Space::new("coll:cc:emb:"), metric, created, next_key: 0 });
+    }
+    cx.log(format!("case: dim={} vectors={} slots={:?}", dim, n0, slots.iter().map(|s| (s.cache_slot(), s.metric.name())).collect::<Vec<_>>()));
+    let rounds = 2 + rng.below(if thorough { 4 } else { 2 });
+    let clock = AtomicU64::new(1);
+    for round in 0..rounds {
+        // ---- quiescent: refill, build + cache, one search through the fresh index
+        let mut all_cached = true;
+        for slot in slots.iter_mut() {
+            let want = if round == 0 { n0 } else { 30 };
+            while slot.space.data.len() < want {
+                let key = format!("k{}", slot.next_key);
+                slot.next_key += 1;
+                let (v, _) = gen_vec(&mut rng, dim, &pool_of(&slot.space, dim));
+                if !slot.store_quiescent(&engine, &key, v) {
+                    cx.r.inconclusive("concurrent: store of a valid vector failed");
+                    return;
+                }
+            }
+            if !slot.build_and_cache(&mut cx, &mut rng, &engine) {
+                all_cached = false;
+            }
+        }
+        if !all_cached {
+            cx.r.inconclusive("concurrent: index could not be built");
+            return;
+        }
+        for slot in slots.iter_mut() {
+            cx.step += 1;
+            let q = gen_query(&mut rng, dim, &pool_of(&slot.space, dim));
+            let k = 1 + rng.below(20);
+            let (api, kind, cslot, metric, coll) = (slot.search_api(), slot.slot_kind(), slot.cache_slot(), slot.metric, slot.coll);
+            judged_search(&mut cx, &engine, api, kind, cslot, &mut slot.space, true, &q, k, metric, None, false, &|| match coll {
+                None => engine.search_similar(&q, k),
+                Some(c) => engine.search_in_collection(c, &q, k),
+            });
+        }
+
+        // ---- plan: mutations per slot, queries (random + the vectors the mutations touch)
+        let mut plans: Vec<Vec<CMut>> = Vec::new();
+        let mut queries: Vec<(usize, Vec<f32>)> = Vec::new();
+        let mut targeted: Vec<Vec<Vec<f32>>> = vec![Vec::new(); slots.len()];
+        for (si, slot) in slots.iter_mut().enumerate() {
+            let n_mut = match rng.below(10) {
+                0..=3 => 1,
+                4..=6 => 2,
+                _ => 3 + rng.below(4),
+            };
+            let plan = plan_mutations(&mut rng, slot, dim, n_mut);
+            let mut touched: Vec<Vec<f32>> = Vec::new();
+            {
+                let mut sim = slot.space.clone();
+                for m in &plan {
+                    let keys: Vec<&String> = match m {
+                        CMut::Store { key, .. } | CMut::Delete(key) => vec![key],
+                        CMut::BatchStore(items) => items.iter().map(|(k, _)| k).collect(),
+                        CMut::BatchDelete(ks) => ks.iter().collect(),
+                        CMut::Clear => sim.data.keys().take(3).collect(),
+                    };
+                    for k in keys {
+                        if let Some(e) = sim.data.get(k) {
+                            touched.push(e.v.clone());
+                        }
+                    }
+                    match m {
+                        CMut::Store { v, .. } => touched.push(v.clone()),
+                        CMut::BatchStore(items) => touched.extend(items.iter().map(|(_, v)| v.clone())),
+                        _ => {}
+                    }
+                    m.apply_model(&mut sim, "plan");
+                }
+            }
+            touched.retain(|v| v.len() == dim && v.iter().any(|x| x.abs() >= 1e-3));
+            touched.truncate(10);
+            for v in &touched {
+                queries.push((si, v.clone()));
+            }
+            for _ in 0..4 {
+                queries.push((si, gen_query(&mut rng, dim, &pool_of(&slot.space, dim))));
+            }
+            targeted[si] = touched;
+            plans.push(plan);
+        }
+        let n_search = 2 + rng.below(4);
+        let ks: Vec<usize> = (0..4).map(|_| *rng.pick(&[1usize, 5, 10, 20, 40, 60])).collect();
+        let gaps: Vec<Vec<u64>> = plans.iter().map(|p| p.iter().map(|_| 1 + rng.below(2 * n_search) as u64).collect()).collect();
+        let searcher_seeds: Vec<u64> = (0..n_search).map(|_| rng.next_u64()).collect();
+
+        // ---- concurrent phase
+        let stop = AtomicBool::new(false);
+        let progress = AtomicU64::new(0);
+        let started = AtomicU64::new(0);
+        let stalled = AtomicBool::new(false);
+        const KEEP: usize = 400;
+        let slot_colls: Vec<Option<&'static str>> = slots.iter().map(|s| s.coll).collect();
+        // wait until `progress` reaches `target`; false = no progress for a long time (harness problem)
+        let exited = AtomicU64::new(0);
+        let wait_for = |target: u64| -> bool {
+            let t = Instant::now();
+            while progress.load(Ordering::SeqCst) < target {
+                if exited.load(Ordering::SeqCst) >= n_search as u64 {
+                    return false; // every searcher stopped on a failed search (judged below)
+                }
+                if t.elapsed().as_secs() > 60 {
+                    stalled.store(true, Ordering::SeqCst);
+                    return false;
+                }
+                std::thread::yield_now();
+            }
+            true
+        };
+        let (obs, mut_times): (Vec<Obs>, Vec<(Vec<(u64, u64)>, Option<String>)>) = std::thread::scope(|sc| {
+            let searchers: Vec<_> = searcher_seeds
+                .iter()
+                .map(|seed| {
+                    let (engine, queries, ks, stop, progress, started, exited, clock, slot_colls) = (&engine, &queries, &ks, &stop, &progress, &started, &exited, &clock, &slot_colls);
+                    let seed = *seed;
+                    sc.spawn(move || {
+                        let mut rng = Rng::new(seed);
+                        let mut kept: std::collections::VecDeque<Obs> = std::collections::VecDeque::new();
+                        let mut total = 0u64;
+                        started.fetch_add(1, Ordering::SeqCst);
+                        while !stop.load(Ordering::SeqCst) {
+                            let qi = rng.below(queries.len());
+                            let (si, q) = &queries[qi];
+                            let k = *rng.pick(ks);
+                            let s0 = clock.fetch_add(1, Ordering::SeqCst);
+                            let out = catch_unwind(AssertUnwindSafe(|| match slot_colls[*si] {
+                                None => engine.search_similar(q, k),
+                                Some(c) => engine.search_in_collection(c, q, k),
+                            }));
+                            let s1 = clock.fetch_add(1, Ordering::SeqCst);
+                            progress.fetch_add(1, Ordering::SeqCst);
+                            total += 1;
+                            let out = match out {
+                                Ok(Ok(r)) => Ok(r),
+                                Ok(Err(e)) => Err((false, first_line(&format!("{:?}", e)))),
+                                Err(p) => Err((true, first_line(&panic_msg(&p)))),
+                            };
+                            let failed = out.is_err();
+                            if kept.len() == KEEP {
+                                kept.pop_front();
+                            }
+                            kept.push_back(Obs { slot: *si, qi, k, s0, s1, out });
+                            if failed {
+                                break;
+                            }
+                        }
+                        exited.fetch_add(1, Ordering::SeqCst);
+                        (kept, total)
+                    })
+                })
+                .collect();
+            let mutators: Vec<_> = plans
+                .iter()
+                .enumerate()
+                .map(|(si, plan)| {
+                    let (engine, progress, clock, gaps, wait_for, coll) = (&engine, &progress, &clock, &gaps[si], &wait_for, slot_colls[si]);
+                    let warm = 2 * n_search as u64;
+                    sc.spawn(move || {
+                        let mut times = Vec::new();
+                        if !wait_for(warm) {
+                            return (times, None);
+                        }
+                        for (m, gap) in plan.iter().zip(gaps) {
+                            let t0 = clock.fetch_add(1, Ordering::SeqCst);
+                            let res = m.apply_real(engine, coll);
+                            let t1 = clock.fetch_add(1, Ordering::SeqCst);
+                            if let Err(e) = res {
+                                return (times, Some(format!("{} failed: {}", m.api(coll.is_some()), e)));
+                            }
+                            times.push((t0, t1));
+                            if !wait_for(progress.load(Ordering::SeqCst) + gap) {
+                                break;
+                            }
+                        }
+                        (times, None)
+                    })
+                })
+                .collect();
+            let mut_times: Vec<_> = mutators.into_iter().map(|h| h.join().unwrap_or_else(|_| (Vec::new(), Some("mutator thread panicked".into())))).collect();
+            // let searches that begin after the last mutation returned be observed, too
+            let _ = wait_for(progress.load(Ordering::SeqCst) + 3 * n_search as u64);
+            stop.store(true, Ordering::SeqCst);
+            let mut obs = Vec::new();
+            let mut total = 0;
+            for h in searchers {
+                if let Ok((kept, n)) = h.join() {
+                    obs.extend(kept);
+                    total += n;
+                }
+            }
+            progress.store(total, Ordering::SeqCst);
+            (obs, mut_times)
+        });
+        cx.r.count("concurrent:searches_in_flight", progress.load(Ordering::SeqCst));
+        if started.load(Ordering::SeqCst) < n_search as u64 || (stalled.load(Ordering::SeqCst) && obs.iter().all(|o| o.out.is_ok())) {
+            cx.r.inconclusive("concurrent: searcher threads made no progress");
+            return;
+        }
+
+        // ---- quiescent again: the model follows the mutations that were executed
+        let mut states: Vec<Vec<Space>> = Vec::new();
+        let mut first_api: Vec<Option<&'static str>> = Vec::new();
+        for (si, slot) in slots.iter_mut().enumerate() {
+            let (times, err) = &mut_times[si];
+            if let Some(e) = err {
+                cx.r.inconclusive(&format!("concurrent: {}", first_line(e)));
+                return;
+            }
+            let coll = slot.coll.is_some();
+            let mut st = vec![slot.space.clone()];
+            for (m, (t0, t1)) in plans[si].iter().zip(times) {
+                let api = m.api(coll);
+                cx.log(format!("[{}] {} {} during ticks {}..{}", slot.cache_slot(), api, m.describe(), t0, t1));
+                cx.r.count(&format!("op:{}", api), 1);
+                m.apply_model(&mut slot.space, api);
+                if matches!(m, CMut::Clear) && coll {
+                    slot.created = false;
+                    slot.metric = Metric::Cos;
+                }
+                st.push(slot.space.clone());
+                let overlapped = obs.iter().filter(|o| o.s0 < *t1 && o.s1 > *t0).count();
+                cx.r.count("concurrent:mutations_during_searches", 1);
+                if overlapped > 0 {
+                    cx.r.count("concurrent:mutations_overlapped_by_a_search", 1);
+                }
+            }
+            first_api.push(plans[si].first().filter(|_| !times.is_empty()).map(|m| m.api(coll)));
+            states.push(st);
+        }
+        cx.r.count("concurrent:rounds", 1);
+
+        // ---- the searches recorded in flight
+        let mut reported: BTreeSet<String> = BTreeSet::new();
+        for o in &obs {
+            cx.step += 1;
+            let slot = &slots[o.slot];
+            let times = &mut_times[o.slot].0;
+            let st = &states[o.slot];
+            let api = slot.search_api();
+            // the collection's metric during this round (delete_collection is planned for cosine only)
+            let metric = slot.metric;
+            let q = &queries[o.qi].1;
+            let a = times.iter().filter(|(_, t1)| *t1 < o.s0).count();
+            let b = times.iter().filter(|(t0, _)| *t0 < o.s1).count();
+            let n_same = st[a].data.values().filter(|e| e.v.len() == q.len()).count();
+            cx.eval(n_same >= 2);
+            cx.r.count("concurrent:inflight_judged", 1);
+            let (ctx_sig, verdict): (String, Result<(), Bad>) = match &o.out {
+                Err((panicked, msg)) => (
+                    "any".into(),
+                    Err(Bad { what: if *panicked { "panic".into() } else { format!("error-{}", msg.split(|c: char| !c.is_alphanumeric()).next().unwrap_or("")) }, detail: format!("{} k={} failed: {}", api, o.k, msg) }),
+                ),
+                Ok(res) => {
+                    cx.r.count("concurrent:inflight_results", res.len() as u64);
+                    if a == b && a == 0 {
+                        cx.r.count("concurrent:inflight_before_first_mutation", 1);
+                        ("index-fresh".into(), judge_common(res, &st[0], q, o.k, metric, None).map(|_| ()))
+                    } else if a == b {
+                        cx.r.count("concurrent:inflight_began_after_a_mutation_returned", 1);
+                        (format!("after:{}", first_api[o.slot].unwrap_or("?")), judge_exact(res, &st[a], q, o.k, metric, None).map(|_| ()))
+                    } else {
+                        cx.r.count("concurrent:inflight_overlapping_a_mutation", 1);
+                        if a > 0 {
+                            cx.r.count("concurrent:inflight_began_after_a_mutation_returned", 1);
+                        }
+                        ("overlapping-mutation".into(), judge_overlap(res, &st[a..=b], &st[..a], q, o.k, metric))
+                    }
+                }
+            };
+            if let Err(bad) = verdict {
+                let sig = format!("inflight:{}:{}:{}", api, ctx_sig, bad.what);
+                if reported.insert(sig.clone()) {
+                    cx.violation(
+                        sig,
+                        format!(
+                            "{} (k={}, ticks {}..{}) while {} searcher threads and the mutator ran; mutations of this slot [{}] returned before the search began: {} of {}, called before it ended: {}; {}",
+                            api,
+                            o.k,
+                            o.s0,
+                            o.s1,
+                            n_search,
+                            slot.cache_slot(),
+                            a,
+                            times.len(),
+                            b,
+                            bad.detail
+                        ),
+                    );
+                }
+            }
+        }
+
+        // ---- sequential searches after the join: the model is stale (or fresh when nothing ran)
+        for (si, slot) in slots.iter_mut().enumerate() {
+            let n_post = 3 + rng.below(3);
+            for j in 0..n_post {
+                cx.step += 1;
+                let q = if j < targeted[si].len() && rng.chance(3, 4) { targeted[si][rng.below(targeted[si].len())].clone() } else { gen_query(&mut rng, dim, &pool_of(&slot.space, dim)) };
+                let k = *rng.pick(&[1usize, 3, 10, 20, 1000]);
+                let (kind, cslot, metric, coll) = (slot.slot_kind(), slot.cache_slot(), slot.metric, slot.coll);
+                cx.r.count("concurrent:searches_after_join", 1);
+                if matches!(slot.space.cache, Cache::Stale(_)) {
+                    cx.r.count("concurrent:searches_after_join_on_changed_data", 1);
+                }
+                if rng.chance(1, 4) {
+                    let f = gen_filter(&mut rng, 0);
+                    let cond = f.cond();
+                    let fc = Some(FilteredSearchConfig::post_filter().with_oversample(1 + rng.below(4)));
+                    let api: &'static str = if coll.is_some() { "search_filtered_in_collection[post]" } else { "search_similar_filtered[post]" };
+                    judged_search(&mut cx, &engine, api, kind, cslot, &mut slot.space, true, &q, k, metric, Some(&f), true, &|| match coll {
+                        None => engine.search_similar_filtered(&q, k, &cond, fc.clone()),
+                        Some(c) => engine.search_filtered_in_collection(c, &q, k, &cond, fc.clone()),
+                    });
+                } else {
+                    let api = slot.search_api();
+                    judged_search(&mut cx, &engine, api, kind, cslot, &mut slot.space, true, &q, k, metric, None, false, &|| match coll {
+                        None => engine.search_similar(&q, k),
+                        Some(c) => engine.search_in_collection(c, &q, k),
+                    });
+                }
+            }
+        }
+    }
+    // the stored vectors still read back as written
+    for slot in &slots {
+        for (k, e) in &slot.space.data {
+            match slot.coll {
+                None => check_readback(&mut cx, "get_embedding", k, engine.get_embedding(k), &e.v),
+                Some(c) => check_readback(&mut cx, "get_from_collection", k, engine.get_from_collection(c, k), &e.v),
+            }
+        }
+    }
+    cx.r.count("concurrent_programs", 1);
+    if cx.r.want_sample() && rng.chance(1, 8) {
+        let t: Vec<&String> = cx.trace.iter().take(8).collect();
+        let s = json!({"part": "concurrent", "case_seed": case_seed, "first_operations": t});
+        cx.r.sample(s);
+    }
+}
 
 // ------------------------------------------------------------------------------------------------
 // `--probe 1`: the minimal witnesses of the defects this monitor found, run against the real code
@@ -2101,6 +2770,7 @@ fn main() {
     }
 
     let mut single = false;
+    let mut only_concurrent = false;
     if let Some(p) = &args.replay {
         single = true;
         let v: Value = serde_json::from_str(&std::fs::read_to_string(p).expect("replay file")).expect("json");
@@ -2115,6 +2785,7 @@ fn main() {
             match rp["part"].as_str().unwrap_or("program") {
                 "alias" => guarded("alias", seed, &mut one, |r| run_alias(seed, r, attempt == 0)),
                 "rerank" => guarded("rerank", seed, &mut one, |r| run_rerank(seed, r, attempt == 0)),
+                "concurrent" => guarded("concurrent", seed, &mut one, |r| run_concurrent(seed, r, attempt == 0, false)),
                 _ => guarded("program", seed, &mut one, |r| run_program(seed, r, attempt == 0, &scratch_base)),
             }
             let hit = match &want {
@@ -2135,9 +2806,18 @@ fn main() {
             guarded("alias", seed, &mut total, |r| run_alias(seed, r, verbose));
         } else if args.extra.get("part").map(|s| s.as_str()) == Some("rerank") {
             guarded("rerank", seed, &mut total, |r| run_rerank(seed, r, verbose));
+        } else if args.extra.get("part").map(|s| s.as_str()) == Some("concurrent") {
+            guarded("concurrent", seed, &mut total, |r| run_concurrent(seed, r, verbose, false));
         } else {
             guarded("program", seed, &mut total, |r| run_program(seed, r, verbose, &scratch_base));
         }
+    } else if args.extra.get("part").map(|s| s.as_str()) == Some("concurrent") {
+        // development aid: the concurrent part alone (floors of the other parts will be unmet)
+        only_concurrent = true;
+        let thorough = !args.quick();
+        let n = args.by_tier(160u64, 6_000u64);
+        let rep = par_cases((args.threads / 4).max(2), args.seed ^ 0xCC, n, args.budget(12, 240), |_i, s, r| guarded("concurrent", s, r, |r| run_concurrent(s, r, false, thorough)));
+        total.merge(rep);
     } else {
         let n = args.by_tier(6_000u64, 400_000u64);
         let sb = scratch_base.clone();
@@ -2149,11 +2829,24 @@ fn main() {
         let n = args.by_tier(1_500u64, 60_000u64);
         let rep = par_cases(args.threads, args.seed ^ 0xB7, n, args.budget(25, 180), |_i, s, r| guarded("rerank", s, r, |r| run_rerank(s, r, false)));
         total.merge(rep);
+        // each case runs 2-5 searcher threads and 1-2 mutator threads of its own
+        let thorough = !args.quick();
+        let n = args.by_tier(160u64, 6_000u64);
+        let rep = par_cases((args.threads / 4).max(2), args.seed ^ 0xCC, n, args.budget(12, 240), |_i, s, r| guarded("concurrent", s, r, |r| run_concurrent(s, r, false, thorough)));
+        total.merge(rep);
     }
 
+    let concurrent_floors: Vec<(&'static str, u64)> = vec![
+        ("concurrent:rounds", 40),
+        ("concurrent:mutations_during_searches", 60),
+        ("concurrent:mutations_overlapped_by_a_search", 40),
+        ("concurrent:inflight_judged", 2_000),
+        ("concurrent:inflight_began_after_a_mutation_returned", 200),
+        ("concurrent:searches_after_join_on_changed_data", 100),
+    ];
     let meta = Meta {
         property: "C06",
-        rule: "one evaluation = one search call of the real VectorEngine judged against the f64 reference scorer over the shadow model (exhaustive oracle: exact top-k modulo eps-ties at the k-th boundary, order, scores, no deleted/overwritten/other-dimension vector; cached-index oracle while the data is unchanged since the build: keys stored, true scores, no duplicates, ordered, <= k); distinct by hash(case seed, step); non-trivial when at least 2 stored vectors have the query's dimension",
+        rule: "one evaluation = one search call of the real VectorEngine judged against the f64 reference scorer over the shadow model (exhaustive oracle: exact top-k modulo eps-ties at the k-th boundary, order, scores, no deleted/overwritten/other-dimension vector; cached-index oracle while the data is unchanged since the build: keys stored, true scores, no duplicates, ordered, <= k); distinct by hash(case seed, step); non-trivial when at least 2 stored vectors have the query's dimension; part concurrent: the same per search, for searches called after all threads were joined and for searches recorded while a mutator thread ran (judged by the state(s) their tick bracket allows)",
         assumptions: vec![
             "score tolerance = 1e-4 relative + 1e-6 absolute, relative to max(|score|, sum|q_i v_i| (normalised by the norms for cosine)): an f32 SIMD dot product is accurate relative to the size of its terms, not of a cancelling result".into(),
             "cosine score of a stored zero vector is taken as 0 (the engine's documented convention); queries are non-zero; no NaN/inf; every non-zero vector has a component >= 1e-3 of its scale so f32 norms neither underflow nor overflow".into(),
@@ -2164,12 +2857,15 @@ fn main() {
             "a query whose dimension differs from the indexed vectors' (shorter, longer, empty) has no defined score: on every index-assisted path it must not panic and must not return a key; an empty answer (the exhaustive search's answer) and a DimensionMismatch / EmptyVector error are both accepted".into(),
             "search_with_hnsw_and_metric (index just built) is judged with the cached-index oracle under the f64 reference of the chosen extended metric: raw value as documented on tensor_store::DistanceMetric / SparseVector (cosine, acos(cosine) for angular and geodesic, Jaccard and overlap on non-zero positions, weighted Jaccard, L2, L1, composite = weighted mean of (cos+1)/2, Jaccard and 1/(1+L2)) and the documented to_similarity ((cos+1)/2, 1 - angle/pi, 1/(1+distance), identity); tolerance 1e-4 relative + 1e-6, for the angular metrics the acos-amplified f32 rounding of the cosine (3e-7) instead".into(),
             "an index handed to cache_hnsw_index for a named collection maps node ids to storage keys (the convention of vector_engine's own test) and is withdrawn by the program when the collection's configuration is replaced (create_collection / load_index)".into(),
+            "part concurrent: a call is taken to precede another when its closing tick (drawn after it returned) is smaller than the other's opening tick (drawn before it was called) on one SeqCst counter; a search is judged exactly only when no mutation of its collection overlaps it, otherwise each returned key may carry the score of any vector it held between the search's start and end and the choice of keys is not judged; indexes are built and cached only while no other thread runs (a build racing with a store is not judged); one mutator thread per collection, so the order of a collection's mutations is the program order".into(),
             "hostile key names (keys starting with \"emb:\", empty key, non-ASCII) are used in 1 of 8 programs".into(),
         ],
         floors: if single {
             vec![]
+        } else if only_concurrent {
+            concurrent_floors
         } else {
-            vec![
+            let mut f = vec![
                 ("programs", 150),
                 ("judged:exhaustive-mode", 3_000),
                 ("judged:cached-mode", 300),
@@ -2206,7 +2902,9 @@ fn main() {
                 ("rerank:shape:stored-negative-before-query-first-nonzero", 500),
                 ("rerank:shape:stored-zero-vector", 200),
                 ("distinct_nontrivial", 2_000),
-            ]
+            ];
+            f.extend(concurrent_floors);
+            f
         },
         exhaustive: false,
     };
